@@ -2,6 +2,7 @@ import PharmpyModel.Core.Sexp
 import PharmpyModel.C04.Theta
 import PharmpyModel.C04.Omega
 import PharmpyModel.C04.OmegaDiag
+import PharmpyModel.C04.OmegaBlock
 import PharmpyModel.C04.ThetaShape
 open Pharmpy Pharmpy.C04
 
@@ -12,12 +13,13 @@ def bad : Sexp := .list [.atom "err", .atom "bad-op"]
 def kOf? : String → Option K
   | "lpar" => some .lpar | "rpar" => some .rpar | "comma" => some .comma | "ws" => some .ws
   | "fix" => some .fix | "low" => some .low | "init" => some .init | "up" => some .up
-  | "rep" => some .rep | "other" => some .other | "sd" => some .sd | "var" => some .var | _ => none
+  | "rep" => some .rep | "other" => some .other | "sd" => some .sd | "var" => some .var
+  | "block" => some .block | _ => none
 
 def kStr : K → String
   | .lpar => "lpar" | .rpar => "rpar" | .comma => "comma" | .ws => "ws" | .fix => "fix"
   | .low => "low" | .init => "init" | .up => "up" | .rep => "rep" | .other => "other"
-  | .sd => "sd" | .var => "var"
+  | .sd => "sd" | .var => "var" | .block => "block"
 
 def val? : Sexp → Option Val
   | .atom "ninf" => some .ninf
@@ -178,6 +180,21 @@ def handle (req : Sexp) : Sexp :=
       | some is => .list ((removeDiag r is).map dnodeS)
       | none => bad
     | _, _ => bad
+  | .list [.atom "bupdate", r, ps, b] =>
+    match drec? r, oparams? ps, b.asBool? with
+    | some r, some ps, some b =>
+      if !dAllHaveInit r then .list [.atom "err", .atom "NoInit"]
+      else if updBlockIndexError r ps then .list [.atom "err", .atom "IndexError"]
+      else match updBlock r ps b with
+        | .ok r' => .list [.atom "ok", .list (r'.map dnodeS)]
+        | .error _ => .list [.atom "err", .atom "ModelSyntaxError"]
+    | _, _, _ => bad
+  | .list [.atom "bfix", r] =>
+    match drec? r with
+    | some r => match blockFix r with
+      | .ok f => Sexp.ofBool f
+      | .error _ => .list [.atom "err", .atom "ModelSyntaxError"]
+    | _ => bad
   | .list [.atom "dparse", r] =>
     match drec? r with
     | some r => match parseDiag r with
